@@ -161,6 +161,18 @@ def make_special(name):
         return ModeWrapper(SemsegTransformWrapper(Root("T3"), [
             KDSemsegRandomResize(base_size=(8, 8), ratio=(0.5, 2.0), interpolation="nearest"), KDSemsegRandomCrop(size=4),
             KDSemsegRandomHorizontalFlip(), probe_like_color()], seed=SEED), "x semseg", return_ctx=True), list(range(N))
+    if name in ("semseg_nested", "semseg_scheduled"):
+        from kappadata.wrappers.sample_wrappers.semseg_transform_wrapper import SemsegTransformWrapper
+        from kappadata.transforms.semseg import KDSemsegRandomHorizontalFlip, KDSemsegRandomCrop
+        from kappadata.transforms import KDColorJitter, KDRandomGrayscale, KDRandomColorJitter, KDScheduledTransform, KDRandomApply
+        from kappadata.transforms import PatchwiseTransform, KDRandomHorizontalFlip
+        # x-only transforms given as nested groups / containers (a nested list becomes a KDComposeTransform)
+        return ModeWrapper(SemsegTransformWrapper(Root("T3"), [
+            KDSemsegRandomCrop(size=4), [KDColorJitter(brightness=0.4, contrast=0.4), KDRandomGrayscale(p=0.5)],
+            *([KDScheduledTransform(KDRandomColorJitter(p=0.8, brightness=0.4))] if name == "semseg_scheduled" else []),
+            PatchwiseTransform(2, KDRandomHorizontalFlip()),
+            KDRandomApply(KDColorJitter(saturation=0.5), p=0.5), KDSemsegRandomHorizontalFlip()], seed=SEED), "x semseg",
+            return_ctx=True), list(range(N))
     import kappadata.common.wrappers.sample_wrappers as cw
     if name == "byol_multiview":
         return ModeWrapper(cw.ByolMultiViewWrapper(Root("PIL"), seed=SEED), "x", return_ctx=True), list(range(N))
@@ -179,7 +191,7 @@ def probe_like_color():
     return KDRandomColorJitter(p=0.8, brightness=0.4, contrast=0.4)
 
 
-SPECIALS = ("mix", "mix_p05", "semseg", "byol_multiview", "mugs_multiview", "imagenet_minaug_multiview", "imagenet_minaug_xtransform")
+SPECIALS = ("mix", "mix_p05", "semseg", "semseg_nested", "semseg_scheduled", "byol_multiview", "mugs_multiview", "imagenet_minaug_multiview", "imagenet_minaug_xtransform")
 
 
 def histories(n_pos, maxlen=3):
@@ -279,7 +291,8 @@ def task(items):
                           dict(wrapper=wrapper, placement=placement, tspec=tspec), p, expect_distinct=_tensor_out(tspec),
                           maxlen=3 if _tensor_out(tspec) else 2, workers=not sched)
         else:
-            explore_stack(lambda: make_special(it[1]), it[1], dict(special=it[1]), p, expect_distinct=it[1] in ("byol_multiview",))
+            explore_stack(lambda: make_special(it[1]), it[1], dict(special=it[1]), p, expect_distinct=it[1] in ("byol_multiview",),
+                          workers=it[1] != "semseg_scheduled")
     p.sample(dict(item=[str(x) for x in items[0]], histories="all access sequences of length<=3 x perturbation; workers 1..3"))
     return p
 
